@@ -5,6 +5,8 @@
 package verifsim
 
 import (
+	"context"
+	"os"
 	"crypto/sha256"
 	"encoding/binary"
 	"encoding/hex"
@@ -325,6 +327,40 @@ func (g *Gate) Arrive(key string, arg any) any {
 	return <-p.ch
 }
 
+// ArriveCtx is Arrive for callers that must honour a context (HTTP round trips): it returns
+// (nil, ctx.Err()) if the context ends while parked.
+func (g *Gate) ArriveCtx(ctx context.Context, key string, arg any) (any, error) {
+	g.mu.Lock()
+	if g.open {
+		o := g.closed
+		g.mu.Unlock()
+		return o, nil
+	}
+	g.n++
+	p := &Parked{Gate: g.Name, Key: key, Arg: arg, ch: make(chan any, 1), seq: g.n}
+	g.parked = append(g.parked, p)
+	g.mu.Unlock()
+	select {
+	case o := <-p.ch:
+		return o, nil
+	case <-ctx.Done():
+		g.mu.Lock()
+		for i, q := range g.parked {
+			if q == p {
+				g.parked = append(g.parked[:i], g.parked[i+1:]...)
+				break
+			}
+		}
+		g.mu.Unlock()
+		select {
+		case o := <-p.ch: // released concurrently
+			return o, nil
+		default:
+		}
+		return nil, ctx.Err()
+	}
+}
+
 // Parked returns the goroutines currently waiting, ordered by key (ties by arrival, which is only
 // deterministic when the scenario makes arrivals causally ordered).
 func (g *Gate) Parked() []*Parked {
@@ -411,6 +447,9 @@ func RunOne(t *testing.T, p Property, tape *Tape, rngSeed uint64, runIdx uint64)
 	var env *Env
 	func() {
 		defer func() {
+			if os.Getenv("VERIF_NORECOVER") != "" {
+				return // debugging: let the runtime print every goroutine
+			}
 			if r := recover(); r != nil {
 				s := fmt.Sprint(r)
 				if env != nil && env.Violated() {
